@@ -392,6 +392,9 @@ func (s *statusW) WriteHeader(c int) { s.code = c; s.ResponseWriter.WriteHeader(
 
 var uuidRe = regexp.MustCompile(`[0-9a-f]{8}-[0-9a-f]{4}-[0-9a-f]{4}-[0-9a-f]{4}-[0-9a-f]{12}`)
 
+// race reports with a library frame are judged here too: "concurrent calls never see each other's bytes"
+func (c20) JudgeRaces() bool { return true }
+
 func (c20) Run(sc core.Scenario) core.Result {
 	r := core.NewR(sc)
 	if sc.Kind == "retry-outage" || sc.Kind == "close-live" || sc.Kind == "async-consumer" || sc.Kind == "two-clients" {
